@@ -192,6 +192,10 @@ func init() {
 		ex.PreemptBound = int(a[0].(uint64))
 		return nil
 	}
+	harnessAPI["verifSchedForkBound"] = func(ex *Exec, fr *frame, a []value) value {
+		ex.SchedForkBound = int(a[0].(uint64))
+		return nil
+	}
 	harnessAPI["verifIsConcrete"] = func(ex *Exec, fr *frame, a []value) value {
 		return !hasSym(a[0].(iface).v)
 	}
